@@ -123,18 +123,19 @@ func (encryptor *QueryDataEncryptor) encryptInsertQuery(ctx context.Context, ins
 		}
 	}
 
-	//	if len(insert.OnDup) > 0 {
-	//		onDupChanged, err := encryptor.encryptUpdateExpressions(
-	//			ctx,
-	//			sqlparser.UpdateExprs(insert.OnDup),
-	//			insert.Table,
-	//			base.AliasToTableMap{insert.Table.Name.String(): insert.Table.Name.String()},
-	//			bindPlaceholders)
-	//		if err != nil {
-	//			return changed, err
-	//		}
-	//		changed = changed || onDupChanged
-	//	}
+	// ON CONFLICT … DO UPDATE SET column = value: the assignments are processed like the SET list of an UPDATE
+	if targets := insert.GetOnConflictClause().GetTargetList(); len(targets) > 0 {
+		onConflictChanged, err := encryptor.encryptUpdateExpressions(
+			ctx,
+			&pg_query.UpdateStmt{TargetList: targets},
+			tableName,
+			AliasToTableMap{tableName: tableName},
+			bindPlaceholders)
+		if err != nil {
+			return changed, err
+		}
+		changed = changed || onConflictChanged
+	}
 
 	return changed, nil
 }
@@ -542,15 +543,21 @@ func (encryptor *QueryDataEncryptor) encryptInsertValues(ctx context.Context, in
 		logger.WithError(err).Errorln("Can't extract placeholders from INSERT query")
 		return values, false, err
 	}
-	encryptor.savePlaceholderSettingIntoClientSession(ctx, placeholders, schema)
-
-	// TODO(ilammy, 2020-10-13): handle ON DUPLICATE KEY UPDATE clauses
-	// These clauses are handled for textual queries. It would be nice to encrypt
-	// any prepared statement parameters that are used there as well.
-	// See "encryptInsertQuery" for reference.
-	if insert.OnConflictClause != nil {
-		logrus.Warning("ON CONFLICT DO UPDATE is not supported in prepared statements")
+	// Placeholders used directly as values of ON CONFLICT … DO UPDATE SET assignments are bound to the
+	// assigned column, like the SET assignments of an UPDATE (see "encryptUpdateValues").
+	if placeholders != nil {
+		for _, target := range insert.GetOnConflictClause().GetTargetList() {
+			if target.GetResTarget() == nil || target.GetResTarget().GetVal().GetParamRef() == nil {
+				continue
+			}
+			index := int(target.GetResTarget().GetVal().GetParamRef().GetNumber())
+			if err := encryptor.updatePlaceholderMap(len(values), placeholders, index, target.GetResTarget().GetName()); err != nil {
+				logger.WithError(err).Errorln("Can't extract placeholders from ON CONFLICT DO UPDATE")
+				return values, false, err
+			}
+		}
 	}
+	encryptor.savePlaceholderSettingIntoClientSession(ctx, placeholders, schema)
 
 	// Now that we know the placeholder mapping,
 	// encrypt the values inserted into encrypted columns.
